@@ -11,7 +11,7 @@ Set Warnings "-notation-overridden,-ambiguous-paths".
 From mathcomp Require Import all_ssreflect all_algebra all_real_closed.
 From mathcomp Require Import ssrZ.
 Set Warnings "notation-overridden,ambiguous-paths".
-From LP Require Import UPolySpec RefAlgSpec RefAlgLoops RefAlgOps RefAlgDet RefAlgAnn RefAlgArith RefAlgSqfree.
+From LP Require Import UPolySpec RefAlgSpec RefAlgLoops RefAlgOps RefAlgDet RefAlgAnn RefAlgArith RefAlgSqfree RefAlgFinal.
 Import GRing.Theory Num.Theory.
 Local Open Scope ring_scope.
 
@@ -167,70 +167,57 @@ Theorem Base_psqfree_correct : forall (R : rcfType) (p : seq Z), Poly p != 0 :> 
 Proof. exact: psqfree_correct. Qed.
 Print Assumptions Base_psqfree_correct.
 
-(* G4: the operations.  The inverse is unconditional.  The others are COND on ONE named premise about the real closed
-   field R at hand (the interval Sturm count of C06):
-     count_open_correct_premise R : for non-zero r coprime with its derivative over R and rationals l < h with
-                                    r(l) <> 0 <> r(h),  count_open r l h = size (roots (pr r) (qr l) (qr h)) *)
+(* G4: the operations of the reference algebraic numbers, by denotation, in every real closed field: WHEN an operation
+   answers (fuel not exhausted), the answer denotes the mathematical result.  All unconditional: the interval Sturm
+   count (RefAlgValid.count_open_correct, proved for C06 on top of SturmItv.v) discharges the only premise of
+   RefAlgArith.v / RefAlgSqfree.v (count_open_correct_premise; the `_cond` / `_sturm` lemmas there are stated relative
+   to it). *)
+Theorem Base_count_open_correct : forall (R : rcfType) (r : seq Z) (l h : Z * Z),
+  qpos l -> qpos h -> @qr R l < qr h -> Poly r != 0 :> {poly Z} ->
+  (@pr R r).[qr l] != 0 -> (@pr R r).[qr h] != 0 ->
+  count_open r l h = size (roots (@pr R r) (qr l) (qr h)).
+Proof. exact: RefAlgValid.count_open_correct. Qed.
+Print Assumptions Base_count_open_correct.
+
+(* the selection loop: encl_ok = the enclosure computed from the current representations is the point v or an open
+   interval around v *)
+Theorem Base_rn_select : forall (R : rcfType) (fuel : nat) (r : seq Z) encl (x y z : rnum) (a b v : R),
+  Poly r != 0 :> {poly Z} -> coprimep (@pr R r) (@pr R r)^`() -> root (pr r) v -> encl_ok encl a b v ->
+  rn_denotes x a -> rn_denotes y b -> rn_select fuel r encl x y = Some z -> rn_denotes z v.
+Proof. exact: rn_select_spec. Qed.
+Print Assumptions Base_rn_select.
+
+Theorem Base_rn_add : forall (R : rcfType) (fuel : nat) (x y z : rnum) (a b : R),
+  rn_denotes x a -> rn_denotes y b -> rn_add fuel x y = Some z -> rn_denotes z (a + b).
+Proof. exact: rn_add_spec. Qed.
+Print Assumptions Base_rn_add.
+
+Theorem Base_rn_sub : forall (R : rcfType) (fuel : nat) (x y z : rnum) (a b : R),
+  rn_denotes x a -> rn_denotes y b -> rn_sub fuel x y = Some z -> rn_denotes z (a - b).
+Proof. exact: rn_sub_spec. Qed.
+Print Assumptions Base_rn_sub.
+
+Theorem Base_rn_mul : forall (R : rcfType) (fuel : nat) (x y z : rnum) (a b : R),
+  rn_denotes x a -> rn_denotes y b -> rn_mul fuel x y = Some z -> rn_denotes z (a * b).
+Proof. exact: rn_mul_spec. Qed.
+Print Assumptions Base_rn_mul.
+
 Theorem Base_rn_inv : forall (R : rcfType) (fuel : nat) (x z : rnum) (a : R),
   rn_denotes x a -> rn_inv fuel x = Some z -> a != 0 /\ rn_denotes z a^-1.
 Proof. exact: rn_inv_spec. Qed.
 Print Assumptions Base_rn_inv.
 
-(* the selection loop: encl_ok = the enclosure computed from the current representations is the point v or an open
-   interval around v *)
-Theorem Base_rn_select_cond : forall (R : rcfType), count_open_correct_premise R ->
-  forall (fuel : nat) (r : seq Z) encl (x y z : rnum) (a b v : R),
-  Poly r != 0 :> {poly Z} -> coprimep (@pr R r) (@pr R r)^`() -> root (pr r) v -> encl_ok encl a b v ->
-  rn_denotes x a -> rn_denotes y b -> rn_select fuel r encl x y = Some z -> rn_denotes z v.
-Proof. exact: rn_select_spec_cond. Qed.
-Print Assumptions Base_rn_select_cond.
-
-Theorem Base_rn_add_cond : forall (R : rcfType), count_open_correct_premise R ->
-  forall (fuel : nat) (x y z : rnum) (a b : R),
-  rn_denotes x a -> rn_denotes y b -> rn_add fuel x y = Some z -> rn_denotes z (a + b).
-Proof. exact: rn_add_spec_sturm. Qed.
-Print Assumptions Base_rn_add_cond.
-
-Theorem Base_rn_sub_cond : forall (R : rcfType), count_open_correct_premise R ->
-  forall (fuel : nat) (x y z : rnum) (a b : R),
-  rn_denotes x a -> rn_denotes y b -> rn_sub fuel x y = Some z -> rn_denotes z (a - b).
-Proof. exact: rn_sub_spec_sturm. Qed.
-Print Assumptions Base_rn_sub_cond.
-
-Theorem Base_rn_mul_cond : forall (R : rcfType), count_open_correct_premise R ->
-  forall (fuel : nat) (x y z : rnum) (a b : R),
-  rn_denotes x a -> rn_denotes y b -> rn_mul fuel x y = Some z -> rn_denotes z (a * b).
-Proof. exact: rn_mul_spec_sturm. Qed.
-Print Assumptions Base_rn_mul_cond.
-
-Theorem Base_rn_div_cond : forall (R : rcfType), count_open_correct_premise R ->
-  forall (fuel : nat) (x y z : rnum) (a b : R),
+Theorem Base_rn_div : forall (R : rcfType) (fuel : nat) (x y z : rnum) (a b : R),
   rn_denotes x a -> rn_denotes y b -> rn_div fuel x y = Some z -> b != 0 /\ rn_denotes z (a / b).
-Proof. exact: rn_div_spec_sturm. Qed.
-Print Assumptions Base_rn_div_cond.
+Proof. exact: rn_div_spec. Qed.
+Print Assumptions Base_rn_div.
 
-Theorem Base_rn_pow_cond : forall (R : rcfType), count_open_correct_premise R ->
-  forall (fuel : nat) (x z : rnum) (a : R) (n : nat),
+Theorem Base_rn_pow : forall (R : rcfType) (fuel : nat) (x z : rnum) (a : R) (n : nat),
   rn_denotes x a -> rn_pow fuel x n = Some z -> rn_denotes z (a ^+ n).
-Proof. exact: rn_pow_spec_sturm. Qed.
-Print Assumptions Base_rn_pow_cond.
+Proof. exact: rn_pow_spec. Qed.
+Print Assumptions Base_rn_pow.
 
-(* the equality test of the reference comparison (gcd, square-free part, Sturm count on the intersection of the isolating
-   intervals) is sound, and hence the full comparison rn_cmp - the operation by which every check compares libpoly's
-   numbers with the reference BY DENOTATION - computes the sign of a - b; COND on the interval Sturm count only
-   (compare Base_rn_cmp_cond above, which assumes the soundness of the equality test itself) *)
-Theorem Base_rn_eqb_sound_cond : forall (R : rcfType), count_open_correct_premise R ->
-  forall (x y : rnum) (a b : R), rn_denotes x a -> rn_denotes y b -> rn_eqb x y = true -> a = b.
-Proof. exact: rn_eqb_sound_cond. Qed.
-Print Assumptions Base_rn_eqb_sound_cond.
-
-Theorem Base_rn_cmp_sturm_cond : forall (R : rcfType), count_open_correct_premise R ->
-  forall (fuel : nat) (x y : rnum) (a b : R) (s : Z),
-  rn_denotes x a -> rn_denotes y b -> rn_cmp fuel x y = Some s -> zr s = Num.sg (a - b).
-Proof. exact: rn_cmp_spec_sturm. Qed.
-Print Assumptions Base_rn_cmp_sturm_cond.
-
-(* multiplication of a reference number by a rational, directly on the representation: unconditional *)
+(* multiplication of a reference number by a rational, directly on the representation *)
 Theorem Base_rn_mul_q : forall (R : rcfType) (x : rnum) (q : Z * Z) (v : R),
   rn_denotes x v -> qpos q -> rn_denotes (rn_mul_q x q) (v * qr q).
 Proof. exact: rn_mul_q_spec. Qed.
@@ -239,9 +226,30 @@ Print Assumptions Base_rn_mul_q.
 (* exact value of a reference multivariate polynomial at real algebraic points (the reference of C10-C12):
    mp_evalR rhoR p = sum over the terms (m, c) of  c * prod over (v, e) in m of rhoR v ^ e  - the formula of
    MPoly.mp_eval, read in R *)
-Theorem Base_mp_eval_rn_cond : forall (R : rcfType), count_open_correct_premise R ->
-  forall (fuel : nat) (rho : MPoly.var -> rnum) (rhoR : MPoly.var -> R) (p : MPoly.mpoly) (z : rnum),
+Theorem Base_mp_eval_rn : forall (R : rcfType) (fuel : nat) (rho : MPoly.var -> rnum) (rhoR : MPoly.var -> R)
+  (p : MPoly.mpoly) (z : rnum),
   (forall v, rn_denotes (rho v) (rhoR v)) ->
   mp_eval_rn fuel rho p = Some z -> rn_denotes z (mp_evalR rhoR p).
-Proof. exact: mp_eval_rn_spec_sturm. Qed.
-Print Assumptions Base_mp_eval_rn_cond.
+Proof. exact: mp_eval_rn_spec. Qed.
+Print Assumptions Base_mp_eval_rn.
+
+(* the equality test of the reference comparison (gcd, square-free part, Sturm count on the intersection of the isolating
+   intervals) is sound, and hence the full comparison rn_cmp - the operation by which every check compares libpoly's
+   numbers with the reference BY DENOTATION - computes the sign of a - b (compare Base_rn_cmp_cond above, which
+   assumes the soundness of the equality test) *)
+Theorem Base_rn_eqb_sound : forall (R : rcfType) (x y : rnum) (a b : R),
+  rn_denotes x a -> rn_denotes y b -> rn_eqb x y = true -> a = b.
+Proof. exact: rn_eqb_sound. Qed.
+Print Assumptions Base_rn_eqb_sound.
+
+Theorem Base_rn_cmp : forall (R : rcfType) (fuel : nat) (x y : rnum) (a b : R) (s : Z),
+  rn_denotes x a -> rn_denotes y b -> rn_cmp fuel x y = Some s -> zr s = Num.sg (a - b).
+Proof. exact: rn_cmp_spec. Qed.
+Print Assumptions Base_rn_cmp.
+
+(* what the drivers check on every number read from the implementation (rn_valid) guarantees that the normalised
+   representation denotes a real number (unique by definition of rn_denotes) *)
+Theorem Base_rn_valid_denotes : forall (R : rcfType) (x : rnum),
+  rn_valid x = true -> exists v : R, rn_denotes (rn_norm x) v.
+Proof. exact: rn_valid_denotes. Qed.
+Print Assumptions Base_rn_valid_denotes.
